@@ -11,6 +11,9 @@ func TestMain(m *testing.M) { hx.Main(m, "C14") }
 
 func TestProp(t *testing.T) { hx.Check(t, "graph", Gen, Exec) }
 
+// TestPropWaitList: what pip:run makes of --wait=... (recording runner).
+func TestPropWaitList(t *testing.T) { hx.Check(t, "waitlist", GenWL, ExecWL) }
+
 func TestReplay(t *testing.T) {
-	hx.Replay(t, map[string]func(json.RawMessage) (hx.Verdict, error){"graph": hx.Exec(Exec), "": hx.Exec(Exec)})
+	hx.Replay(t, map[string]func(json.RawMessage) (hx.Verdict, error){"graph": hx.Exec(Exec), "": hx.Exec(Exec), "waitlist": hx.Exec(ExecWL)})
 }
